@@ -10,6 +10,10 @@ NOTE = ("Trusted base: go/types (type checking and constant evaluation), golang.
         "The check decides the named structural clauses only; the value-level remainder listed in the evidence under not_covered is not claimed.")
 
 CLAIMED = {
+ "C03": dict(level="other",
+   technique="static analysis: constant tables of the binary writer against a hand-written specification table; byte-count abstract domain over the value closures; call-order and value-identity checks of the header writer and the length back-patch; must-pass-through of the sign-bit test in bigIntToBytes",
+   text="Decides the structural clauses of wire-format conformance for every item the writer can emit: the ten type codes/names equal KMIP 1.4 9.1.1 and the reader accepts exactly them; each fixed-width writer declares the specified length and appends exactly 8 value+padding bytes; string writers declare len(value) and right-pad with padForLen(len,8) zero bytes; big integers are written with the sign padding inside the declared length at a multiple of 8; the header is tag(3 big-endian bytes), type, length in that order and the structure length is back-patched at the placeholder with len(after)-offset-4; reader and writer agree on fixed lengths; and the sign-word decision examines the top bit for both signs. The arithmetic inside padForLen/bigIntToBytes and agreement with an independent parser over the value space need an executable oracle and are not claimed.",
+   ref="§4 C03"),
  "C07": dict(level="other",
    technique="static analysis: SSA value-identity and dominance checks on Stream.Recv/computeNeededBytes (bounded-extent slices, must-pass-through of the size limit before buffer growth, non-nil error on every non-decode exit)",
    text="Decides, on the SSA of the receive loop, the structural facts that make framing independent of segmentation for every chunking at once: the transport is only ever asked for buf[read:need] where need is 8 and then the extent announced by the header, so a call can never consume a byte of the next message; the decoder sees exactly buf[:need] and only once read >= need; every other exit is a non-nil error (zero-length read included); the announced extent is compared with the configured maximum on every path before the buffer is grown, and the server configures a positive maximum. The enumeration of concrete segmentations and transports that break the io.Reader contract are outside.",
